@@ -68,6 +68,21 @@ class C02(Check):
                          pkgchains.dupuse, runner="run_chain"))
         return out
 
+    def pair_menu(self, tier):
+        """queries simplified one after the other WITHOUT resetting the library's fresh-name counter (as a backend
+        process does): the second must still be simplified correctly, incl. queries that already carry arg_N names"""
+        menu = [
+            "Select(Select(ds, lambda e: e.jets), lambda j: Count(j))",
+            "Where(Select(ds, lambda e: e.a + 1), lambda e: e > 1)",
+            "Select(ds, lambda arg_1: Select(arg_1.jets, lambda arg_2: Count(Where(Select(arg_1.jets, lambda arg_0: arg_0.pt + arg_1.a), lambda e: e > arg_2.pt))))",
+            "Select(Select(ds, lambda arg_0: arg_0.jets), lambda arg_1: Select(arg_1, lambda arg_0: arg_0.pt + 1))",
+            "Select(ds, lambda arg_3: (lambda arg_4: (Count(arg_4), Where(arg_4, lambda arg_5: arg_5 > 1)))(Select(arg_3.jets, lambda arg_4: arg_4.pt + 1)))",
+            "SelectMany(SelectMany(ds, lambda e: e.jets), lambda j: Select(j.tr, lambda t: (t.q, j.pt)))",
+            "Select(Where(Select(ds, lambda arg_7: (arg_7.a, arg_7.jets)), lambda arg_7: arg_7[0] > 1), lambda arg_8: Count(arg_8[1]))",
+            "(lambda arg_0, arg_1: Select(arg_1, lambda arg_2: arg_2.a + arg_0))(1, ds)",
+        ]
+        return [("pairs", None, m) for m in menu]
+
     def run_chain_arg(self, src):
         return self.run_chain(src, qspaces.POOL_ARG3)
 
